@@ -126,6 +126,10 @@ func c15Exec(op []string) string {
 	switch op[0] {
 	case "c15.par":
 		return c15ParExec(op)
+	case "c15.cost":
+		return c15CostExec(op)
+	case "c15.stack":
+		return c15StackExec(op)
 	case "c15.unk":
 		return c15DecodeUnknown(parseBytes(op[1]), c15Hints(op[2]))
 	case "c15.named":
@@ -166,6 +170,12 @@ func c15Inflated(gz string) int {
 func c15Judge(op []string, out string) string {
 	if op[0] == "c15.par" {
 		return c15ParJudge(op, out)
+	}
+	if op[0] == "c15.cost" {
+		return c15CostJudge(op, out)
+	}
+	if op[0] == "c15.stack" {
+		return c15StackJudge(op, out)
 	}
 	if strings.HasPrefix(out, "panic") {
 		return "decoding panicked"
@@ -330,11 +340,22 @@ func c15Gen(g *G) {
 			structIDs = append(structIDs, c.ID)
 		}
 	}
+	// every fourth input, and every input with a packed object in it, is also decoded with the model's cost
+	// next to the result and the real allocation measured against it (c15cost.go)
+	costN := 0
 	emitUnk := func(b []byte, hints string, tag string) {
-		g.Emit(fmt.Sprintf("c15.unk %s %s %s", hexD(b), hints, gzTable(b)), tag)
+		gz := gzTable(b)
+		g.Emit(fmt.Sprintf("c15.unk %s %s %s", hexD(b), hints, gz), tag)
+		if costN++; costN%4 == 0 || gz != "-" {
+			g.Emit(fmt.Sprintf("c15.cost u %s %s %s", hexD(b), hints, gz), "cost:"+tag)
+		}
 	}
 	emitNamed := func(id uint32, b []byte, tag string) {
-		g.Emit(fmt.Sprintf("c15.named %08x %s %s", id, hexD(b), gzTable(b)), tag)
+		gz := gzTable(b)
+		g.Emit(fmt.Sprintf("c15.named %08x %s %s", id, hexD(b), gz), tag)
+		if costN++; costN%4 == 0 || gz != "-" {
+			g.Emit(fmt.Sprintf("c15.cost n %08x %s %s", id, hexD(b), gz), "cost:"+tag)
+		}
 	}
 	// (0) before anything else of this run has been decoded: batches over every registered struct constructor,
 	// decoded by several goroutines at once, each batch in a new process (c15par.go)
@@ -552,6 +573,7 @@ func c15Gen(g *G) {
 	}
 	// deep and maximal-count inputs (c15deep.go)
 	c15DeepGen(g)
+	c15StackGen(g)
 	// byte strings with hostile length headers inside rpc_error / msgs_state_info
 	for _, hdr := range [][]byte{{0xfe, 0xff, 0xff, 0xff}, {0xfe, 0, 0, 0}, {0xff}, {0xfd}, {0xfe, 0xff, 0xff}, {0xfe}, {0x05, 1, 2}, {0x03, 1, 2, 3}, {0x02, 1, 2, 9}} {
 		emitUnk(c15cat(le32(0x2144ca19), le32(400), hdr, r.Bytes(8)), "-", "string-header-hostile")
